@@ -46,10 +46,11 @@ Theorem C19_method_lines :
   map_res parse_method ms = Ok methods -> map snd methods = map (fun m => spec (m_doc m)) ms.
 Proof. exact method_lines. Qed.
 
-(* known deviation F-C19-2 (faithful model): a marker on a func declaration is silently skipped *)
-Theorem C19_funcdecl_marker_ignored_refuted :
-  exists doc, has_marker x_converter_marker doc = true /\ parse_decl (DFunc doc) = Ok [].
-Proof. exact funcdecl_marker_ignored_refuted. Qed.
+(* a marker on a func declaration is an error; without marker a func declaration contributes nothing *)
+Theorem C19_funcdecl_marker :
+  forall doc, parse_decl (DFunc doc) =
+  if has_marker x_converter_marker doc || has_marker x_variables_marker doc then Diag E_ON_FUNC else Ok [].
+Proof. exact funcdecl_marker. Qed.
 
 Print Assumptions C19_setting_lines_spec.
 Print Assumptions C19_command_split.
@@ -59,4 +60,4 @@ Print Assumptions C19_converter_marker_wrong_kind.
 Print Assumptions C19_converter_marker_on_non_interface.
 Print Assumptions C19_variables_lines.
 Print Assumptions C19_method_lines.
-Print Assumptions C19_funcdecl_marker_ignored_refuted.
+Print Assumptions C19_funcdecl_marker.
